@@ -23,4 +23,5 @@ if os.path.exists(sp):
     print('|---|---|')
     for name in sorted(s):
         r = s[name]
-        print(f"| `{name}` | {'silent' if not r else '; '.join(f'{k}: {', '.join(v[:3])}' for k, v in sorted(r.items()))} |")
+        cell = 'silent' if not r else '; '.join(k + ': ' + ', '.join(v[:3]) for k, v in sorted(r.items()))
+        print('| `' + name + '` | ' + cell + ' |')
